@@ -611,7 +611,25 @@ def rule_K5(ctx):
             stored = [key(strip_casts(x_rhs)) for x, x_lv, x_op, x_rhs in stores(lp["body"] if lp else f.body)
                       if x_lv["k"] == "sub" and x_op == "=" and x_rhs is not None and
                       key(strip_casts(x_lv["base"])) == "pos"]
-            if col == acc and (not stored or all(v == acc for v in stored)):
+            # the character measured is the one being placed: pos[X] = col next to ren_cwid(chrs[Y], ..)
+            # needs X == Y when both are subscripts (locals resolved)
+            from ..util import resolve_local
+            placed = [x_lv for x, x_lv, x_op, x_rhs in stores(lp["body"] if lp else f.body)
+                      if x_lv["k"] == "sub" and x_op == "=" and x_rhs is not None and
+                      key(strip_casts(x_lv["base"])) == "pos" and key(strip_casts(x_rhs)) == acc]
+            who = strip_casts(r["args"][0])
+            mism = None
+            if placed and who["k"] == "sub":
+                ix = key(strip_casts(resolve_local(f, strip_casts(placed[0]["idx"]))))
+                iy = key(strip_casts(resolve_local(f, strip_casts(who["idx"]))))
+                if ix != iy:
+                    mism = (ix, iy)
+            if mism:
+                ctx.violation(f.name, "the character measured is the one placed",
+                              "column `%s` is stored for character [%s] but advanced by the width of character [%s]: "
+                              "on a reordered line with a tab or a wide character the cells overlap" % (acc, mism[0], mism[1]),
+                              f.loc(s_))
+            elif col == acc and (not stored or all(v == acc for v in stored)):
                 ctx.ok(f.name, "width of each character computed at the running column `%s` it is placed at" % acc,
                        loc=f.loc(s_))
             else:
